@@ -3,6 +3,7 @@
 From Coq Require Import Init.Byte List Bool.
 Require Import Ojg.Base.Bytes Ojg.Json.Machine Ojg.Json.Ref Ojg.Json.Sweep Ojg.Json.Frontends.
 Require Import Ojg.Json.Sweep_parser Ojg.Json.Sweep_validator Ojg.Json.Sweep_tokenizer Ojg.Json.Sweep_gen.
+Require Import Ojg.Json.DataInv Ojg.Json.DSweeps Ojg.Json.Position Ojg.Json.NlTables Ojg.Json.Outcome.
 
 Theorem C01_parser : forall w, ctl_accepts fe_parser w = ref_accepts true w.
 Proof. exact (accepts_eq_ref true fe_parser sweep_parser). Qed.
@@ -21,6 +22,23 @@ Theorem C01_tokenizer_multi : forall w, ctl_accepts fe_tokenizer_multi w = ref_a
 Proof. exact (accepts_eq_ref false fe_tokenizer_multi sweep_tokenizer_multi). Qed.
 Theorem C01_gen_multi : forall w, ctl_accepts fe_gen_multi w = ref_accepts false w.
 Proof. exact (accepts_eq_ref false fe_gen_multi sweep_gen_multi). Qed.
+
+
+(* the whole machine (control, value building, hand-off) delivers documents / events exactly for the
+   texts the RFC 8259 reference accepts, and reports an error for every other text; so the four
+   front-ends accept and reject alike *)
+Definition C01_outcome (one : bool) (K : cfg) : Prop :=
+  forall w, delivered (run_all K w) = ref_accepts one w /\
+            (delivered (run_all K w) = false -> exists l col, run_all K w = OErr l col).
+Theorem C01_outcome_parser : C01_outcome true fe_parser.
+Proof. exact (delivered_iff_ref true fe_parser nl_parser sweep_parser dsweep_parser). Qed.
+Theorem C01_outcome_validator : C01_outcome true fe_validator.
+Proof. exact (delivered_iff_ref true fe_validator nl_validator sweep_validator dsweep_validator). Qed.
+Theorem C01_outcome_tokenizer : C01_outcome true fe_tokenizer.
+Proof. exact (delivered_iff_ref true fe_tokenizer nl_tokenizer sweep_tokenizer dsweep_tokenizer). Qed.
+Theorem C01_outcome_gen : C01_outcome true fe_gen.
+Proof. exact (delivered_iff_ref true fe_gen nl_gen sweep_gen dsweep_gen). Qed.
+Print Assumptions C01_outcome_validator.
 
 Print Assumptions C01_parser.
 Print Assumptions C01_validator.
